@@ -322,6 +322,18 @@ def apply_obligations(ctx, R, prover, pid):
         goals["propagation-delivers-or-reports-an-error"] = z3.And(
             z3.Implies(z3.And(is_("PropagateAtoB"), ok), delivered(W.pa, W.pb)), z3.Implies(z3.And(is_("PropagateBtoA"), ok), delivered(W.pb, W.pa)))
     if pid == "C06":
+        # a conflict NAME enters the recorded common state only if the losing version was really delivered to that name on both
+        # sides (recorded state = tree: "it is there already" is not something apply may assume of a name it did not write)
+        crec = []
+        for e in inserts:
+            for (lose_p, lose_root, win_root, cond) in ((W.pb, W.RB, W.RA, a_wins), (W.pa, W.RA, W.RB, z3.Not(a_wins))):
+                got = []
+                for r1 in renames:
+                    for r2 in renames:
+                        if r1["seq"] < r2["seq"]:
+                            got.append(z3.And(delivered(lose_p, r1["to"]), delivered(lose_p, r2["to"]), _same_conflict_name(r1["to"], r2["to"], lose_root, win_root, W)))
+                crec.append(z3.Implies(z3.And(e["guard"], e["path"] != W.REL, both, cond), _any(got)))
+        goals["a-conflict-copy-is-recorded-only-if-the-losing-version-was-delivered-to-that-name-on-both-sides"] = _all(crec)
         # the version with the greater BLAKE3 stays at the path on both sides; the other goes to <path>.conflict-<host>-<12 hex>
         conds = []
         for r in renames:
